@@ -96,3 +96,28 @@ void drv_c15(int tier, unsigned long seed, const char *extra) {
   }
   if (f) fclose(f);
 }
+
+/* write inventory by size class: hidden static state may exist only on a path taken above some operand size (a scratch buffer "kept off the
+   stack" in the long-times-short multiplication, a cached table of powers in radix conversion ...).  One call of every size-dispatching public
+   function in each size class (balanced, long x 2..16 limbs, long x 17.., beyond each threshold); the global-write detector watches every call. */
+void drv_c15_sizes(int tier, unsigned long seed, const char *extra) {
+  shard_t sh = shard_parse(extra); long x = 0; int i, j;
+  static const int big[] = {30, 120, 501, 700, 1100, 2300}, small[] = {1, 2, 3, 16, 17, 40};
+  if (sh.pure) return;
+  for (i = 0; i < 6; i++) { x++; if (!MINE(sh, x)) continue;
+    rec_reset("c15_sizes", x, seed);
+    for (j = 0; j < 5; j++) callf("mpz_init", j);
+    for (j = 0; j < 6; j++) { int un = big[i], vn = small[j];
+      callf("drv_rndz", 0, un, (int)rnd_below(NKINDS), 0); callf("drv_rndz", 1, vn, (int)rnd_below(NKINDS), (int)rnd_below(2));
+      callf("mpz_mul", 2, 0, 1); callf("mpz_mul", 2, 1, 0); callf("mpz_tdiv_qr", 2, 3, 0, 1); callf("mpz_addmul", 2, 0, 1); callf("mpz_gcd", 2, 0, 1); }
+    callf("drv_rndz", 1, big[i], 0, 0); callf("mpz_mul", 2, 0, 1); callf("mpz_mul", 2, 0, 0); callf("mpz_tdiv_qr", 2, 3, 2, 1); callf("mpz_gcd", 3, 0, 1); callf("mpz_sqrt", 3, 0);
+    callf("drv_rndz", 1, big[i] / 2 + 1, 0, 0); callf("mpz_mul", 2, 0, 1); callf("mpz_tdiv_q", 2, 0, 1); callf("mpz_mod", 3, 0, 1);
+    if (big[i] <= 700) { callf("mpz_setbit", 1, (uint64_t)0); callf("mpz_set_ui", 3, (uint64_t)(65537 + rnd_below(100))); callf("mpz_powm", 2, 0, 3, 1); }
+    callf("mpz_get_str", 10, 0); { char *s = last_ret.str; callf("mpz_set_str", 2, s, 10); rec_free_str(s); }
+    callf("mpz_get_str", 7, 0); rec_free_str(last_ret.str);
+    callf("mpz_root", 2, 0, (uint64_t)3); callf("mpz_set_ui", 3, (uint64_t)3); callf("mpz_pow_ui", 3, 3, (uint64_t)big[i]); callf("mpz_perfect_square_p", 3);
+    callf("mpz_fac_ui", 2, (uint64_t)(big[i] * 3)); callf("mpz_bin_uiui", 2, (uint64_t)(big[i] * 9), (uint64_t)(big[i] * 2)); callf("mpz_fib_ui", 2, (uint64_t)(big[i] * 50));
+    for (j = 0; j < 5; j++) callf("mpz_clear", j);
+    rec_quiesce();
+  }
+}
